@@ -149,7 +149,7 @@ impl NanBox {
         match tag {
             Tag::Bool => Ok(ValueRef::Bool(ptr != 0)),
             Tag::Null => Ok(ValueRef::Null),
-            Tag::Number => unreachable!("Number values are not NaN-boxed."),
+            Tag::Number => Err("Number values are not NaN-boxed.".into()),
             Tag::Array => Ok(ValueRef::Array { ptr, len }),
             Tag::String => Ok(ValueRef::String { ptr, len }),
             Tag::Object => Ok(ValueRef::Object { ptr, len }),
